@@ -387,7 +387,7 @@ def affine_extents(rng, es, qmax=7, smax=3):
     return ext
 
 
-def affine_mapping(rng, es, part_p=0.5, derive_s_p=0.33):
+def affine_mapping(rng, es, part_p=0.5, derive_s_p=0.33, split_s_p=0.2):
     """loop order over {Q or W, S} (and {P or H, R}); optional shape partitioning of Q with W following."""
     out = es["out"]
     m = {"rank-order": {}, "loop-order": {}}
@@ -427,9 +427,19 @@ def affine_mapping(rng, es, part_p=0.5, derive_s_p=0.33):
         kind += "+derivedS"
     if "P" in es["ranks"]:
         others += [rng.choice(["P", "H"]), "R"]
+    # the filter rank may be shape-partitioned as well (its levels outermost-to-innermost, anywhere in the nest)
+    split_s = others == ["S"] and rng.random() < split_s_p
+    if split_s:
+        part["S"] = ["uniform_shape(%d)" % rng.choice([2, 2, 3])]
+        kind += "+splitS"
+        others = [o for o in others if o != "S"]
     # interleave: keep Q levels in order, insert others anywhere
     for o in others:
         loop.insert(rng.randint(0, len(loop)), o)
+    if split_s:
+        i1 = rng.randint(0, len(loop))
+        loop.insert(i1, "S1")
+        loop.insert(rng.randint(i1 + 1, len(loop)), "S0")
     m["loop-order"][out] = loop
     if part:
         m["partitioning"] = {out: part}
